@@ -217,6 +217,18 @@ impl Drop for AsyncFd {
             submission.0.user_data = CLOSE_USER_DATA;
             submission.no_success_event();
         });
+        #[cfg(a10_verif)]
+        {
+            let fields = [
+                self.fd() as u64,
+                u64::from(self.kind() == Kind::Direct),
+                u64::from(res.is_err()),
+                0,
+                0,
+                0,
+            ];
+            crate::verif::emit("FdDrop", fields);
+        }
         if let Ok(()) = res {
             return;
         }
